@@ -14,6 +14,8 @@ pub struct Matcher<'a> {
     pub truncated: bool,
     /// a supertype test could not be decided exactly (kind reachable both through and outside the supertype)
     pub inexact: bool,
+    /// pretend extras are not there (to tell whether a pattern matches only thanks to an extra child)
+    pub skip_extras: bool,
     subtypes: HashMap<String, HashSet<String>>,
     exclusive: HashMap<String, HashSet<String>>,
     work: usize,
@@ -49,7 +51,7 @@ impl<'a> Matcher<'a> {
                 exclusive.insert(k.clone(), v.as_array().map(|a| a.iter().filter_map(|x| x.as_str().map(|s| s.to_string())).collect()).unwrap_or_default());
             }
         }
-        Matcher { xt, lang, limit, truncated: false, inexact: false, subtypes, exclusive, work: 0 }
+        Matcher { xt, lang, limit, truncated: false, inexact: false, skip_extras: false, subtypes, exclusive, work: 0 }
     }
 
     fn kind_matches(&mut self, k: &Kind, i: usize) -> bool {
@@ -110,7 +112,7 @@ impl<'a> Matcher<'a> {
                         return out;
                     }
                 }
-                let kids = self.xt.nodes[i].children.clone();
+                let kids: Vec<usize> = if self.skip_extras { self.xt.nodes[i].children.iter().copied().filter(|&c| !self.xt.nodes[c].extra).collect() } else { self.xt.nodes[i].children.clone() };
                 let subs = self.seq(children, 0, &kids, 0, None, *anchor_last);
                 for (b, _) in subs {
                     out.push(b);
